@@ -141,6 +141,15 @@ TForeign(E) ==
   /\ E.view.beyond = <<>> /\ E.view.gerr = <<>>
   /\ UNCHANGED <<truth, cores, stack>>
 
+\* C14: the run of the preceding history under another storage backend / node-cache
+\* configuration produced, line for line, the same results, events, projections and store
+\* digests as the baseline run (which is the one validated above); HcAbs!Outcome is a function
+\* of (state, operation), so equal lines are what the specification prescribes for any backend
+TConfig(E) ==
+  /\ E.e = "config"
+  /\ E.diff = <<>>
+  /\ UNCHANGED <<truth, cores, stack>>
+
 \* the call E.op was in progress when the process died after E.ks storage operations
 \* (E.cut >= 0: and only E.cut bytes of the next write reached the store); reopening gave E.view
 TCrashOpen(E) ==
@@ -188,7 +197,7 @@ TNext ==
   /\ \E E \in {Rec[l]} :
        \/ TReset(E) \/ TCreate(E) \/ TOp(E) \/ TCrashOpen(E) \/ TIoErr(E)
        \/ TCrashCreate(E) \/ TPush(E) \/ TPop(E)
-       \/ TForged(E) \/ TRawReq(E) \/ TSynced(E) \/ TForeign(E)
+       \/ TForged(E) \/ TRawReq(E) \/ TSynced(E) \/ TForeign(E) \/ TConfig(E)
 
 TInit == truth = Empty /\ cores = Empty /\ stack = <<>> /\ l = 1
 
